@@ -24,6 +24,7 @@ func init() { core.Register("C02", Run) }
 type childScript struct {
 	kind int // index into script.kinds; == len(kinds) means the dead (non-triggering) kind
 	prio int
+	late int // > 0: the child monitor is created inside the action, the event is added under it by a helper goroutine late microseconds after the action returned
 }
 
 type ruleScript struct {
@@ -60,6 +61,9 @@ func (s *script) String() string {
 				} else {
 					fmt.Fprintf(&b, " +k%d/p%d", c.kind, c.prio)
 				}
+				if c.late > 0 {
+					fmt.Fprintf(&b, "~late%d", c.late)
+				}
 			}
 			b.WriteString("]")
 		}
@@ -92,7 +96,7 @@ func genScript(r *core.Rand) *script {
 					if i < nk-1 && !r.Chance(1, 5) {
 						k = r.Range(i+1, nk-1)
 					}
-					ru.children = append(ru.children, childScript{k, prios[r.Intn(len(prios))]})
+					ru.children = append(ru.children, childScript{kind: k, prio: prios[r.Intn(len(prios))]})
 				}
 				rs = append(rs, ru)
 			}
@@ -166,6 +170,7 @@ type runState struct {
 	invs         map[string][]*invocation // key -> invocations
 	mons         []engine.Monitor
 	skipMismatch []string
+	latePending  int32 // events a helper goroutine still has to add under a child monitor that exists already
 }
 
 func (rs *runState) begin(key string) *invocation {
@@ -195,7 +200,10 @@ func buildProcessor(s *script, rs *runState) engine.Processor {
 					for y := 0; y < r.yields; y++ {
 						runtime.Gosched()
 					}
+					returned := make(chan struct{})
+					defer close(returned)
 					for j, ch := range r.children {
+						j, ch := j, ch
 						cm := m.NewChildMonitor(ch.prio)
 						rs.mu.Lock()
 						rs.mons = append(rs.mons, cm)
@@ -205,12 +213,32 @@ func buildProcessor(s *script, rs *runState) engine.Processor {
 							kn = "dead"
 						}
 						ce := engine.NewEvent("e", []string{"c02", kn}, map[interface{}]interface{}{"path": fmt.Sprintf("%s/%s.%d", path, r.name, j)})
-						res, err := p.AddEvent(ce, cm)
-						if err != nil || (res == nil) != (ch.kind == dead) {
-							rs.mu.Lock()
-							rs.skipMismatch = append(rs.skipMismatch, fmt.Sprintf("%s/%s.%d kind=%s monitor=%v err=%v", path, r.name, j, kn, res != nil, err))
-							rs.mu.Unlock()
+						add := func() {
+							res, err := p.AddEvent(ce, cm)
+							if err != nil || (res == nil) != (ch.kind == dead) {
+								rs.mu.Lock()
+								rs.skipMismatch = append(rs.skipMismatch, fmt.Sprintf("%s/%s.%d kind=%s monitor=%v err=%v", path, r.name, j, kn, res != nil, err))
+								rs.mu.Unlock()
+							}
 						}
+						if ch.late > 0 {
+							// an asynchronous producer: the child monitor exists (and
+							// belongs to the cascade) before the action returns, the
+							// event arrives afterwards
+							atomic.AddInt32(&rs.latePending, 1)
+							go func() {
+								<-returned
+								if ch.late > 1 {
+									time.Sleep(time.Duration(ch.late) * time.Microsecond)
+								} else {
+									runtime.Gosched()
+								}
+								add()
+								atomic.AddInt32(&rs.latePending, -1)
+							}()
+							continue
+						}
+						add()
 					}
 					inv.end = rs.tr.Stamp()
 					if r.fail {
@@ -351,7 +379,7 @@ func runScenario(c *core.Ctx, stream string, idx int, s *script, noise uint64, n
 			// clock (every hook event and stamp moves it) must not move from
 			// before the pool view until after the waiters were inspected
 			seq0 := tr.Now()
-			if st, _ := sched.PoolStuck(tr, pool); st && waitersBlocked(results) && tr.Now() == seq0 && !allDone() {
+			if st, _ := sched.PoolStuck(tr, pool); st && atomic.LoadInt32(&rs.latePending) == 0 && waitersBlocked(results) && tr.Now() == seq0 && !allDone() {
 				verdict = "stuck"
 				break
 			}
@@ -465,6 +493,11 @@ func runScenario(c *core.Ctx, stream string, idx int, s *script, noise uint64, n
 		c.Event("children.skipped", int64(exp.skipped))
 	}
 	// ---- oracles at quiescence
+	for i := 0; i < 4000 && atomic.LoadInt32(&rs.latePending) > 0; i++ {
+		// (only on a tree where the wait returned too early) let the helper
+		// goroutines add their events before the processor is stopped
+		time.Sleep(500 * time.Microsecond)
+	}
 	proc.Finish()
 	for k, cr := range results {
 		if n := atomic.LoadInt32(&cr.finishes); n != 1 {
@@ -575,12 +608,12 @@ func gateShapes() []*script {
 	}
 	// shape A: root adds two children, one fails; shape B: chain of depth 3 with a failing leaf and a skipped child
 	a := [][]ruleScript{
-		{{name: "r0x0", prio: 0, children: []childScript{{1, 1}, {1, 2}, {2, 0}}}},
+		{{name: "r0x0", prio: 0, children: []childScript{{kind: 1, prio: 1}, {kind: 1, prio: 2}, {kind: 2, prio: 0}}}},
 		{{name: "r1x0", prio: 1, fail: true}, {name: "r1x1", prio: 2}},
 	}
 	b := [][]ruleScript{
-		{{name: "r0x0", prio: 0, fail: true, children: []childScript{{1, 0}}}, {name: "r0x1", prio: 5, children: []childScript{{3, 0}}}},
-		{{name: "r1x0", prio: 0, children: []childScript{{2, 2}, {3, 1}}}},
+		{{name: "r0x0", prio: 0, fail: true, children: []childScript{{kind: 1, prio: 0}}}, {name: "r0x1", prio: 5, children: []childScript{{kind: 3, prio: 0}}}},
+		{{name: "r1x0", prio: 0, children: []childScript{{kind: 2, prio: 2}, {kind: 3, prio: 1}}}},
 		{{name: "r2x0", prio: 9, fail: true}},
 	}
 	return []*script{mk(2, false, a), mk(2, true, b), mk(3, false, b), mk(1, false, a)}
@@ -599,7 +632,7 @@ func capped(c *core.Ctx, stream string, idx int) bool {
 
 // Run is the check.
 func Run(c *core.Ctx) {
-	c.Note("rule", "cascade scripts are data (per event kind a list of rules with priority, fail flag, yields and child events with priorities, incl. non-triggering children); an independent expansion gives the expected (event, rule) invocations and failures (respecting fail-on-first-error); the real engine runs them with harness closures as actions, 1..16 workers, 1..8 cascades in flight from separate goroutines; streams: 'gate' = 4 fixed shapes x 14 hold points (12 on workers, 2 on the adding goroutine between AddTask and its wait) x 13 partner points (one goroutine held at the hold point until another passed the partner point; infeasible pairs are released), 'nested' = rule actions that wait for a nested cascade of their own (fan < workers) with a stuck predicate that accepts workers blocked in a nested wait, 'ecal' = the same scripts as ECAL sinks awaited with the built-in addEventAndWait, 'noise' = seeded random scripts with random yields/sleeps at the lock-free hook points, also under -race; oracles: stamps of action ends vs. return of AddEventAndWait, exactly-once invocation table, AllErrors() at return time and again at quiescence vs. expected failures, finish-handler count, IsFinished of every monitor handed out, stuck-state predicate for a wait that cannot return; non-trivial/distinct = distinct interleaving signatures of the hook trace and feasible gate cases")
+	c.Note("rule", "cascade scripts are data (per event kind a list of rules with priority, fail flag, yields and child events with priorities, incl. non-triggering children); an independent expansion gives the expected (event, rule) invocations and failures (respecting fail-on-first-error); the real engine runs them with harness closures as actions, 1..16 workers, 1..8 cascades in flight from separate goroutines; streams: 'gate' = 4 fixed shapes x 14 hold points (12 on workers, 2 on the adding goroutine between AddTask and its wait) x 13 partner points (one goroutine held at the hold point until another passed the partner point; infeasible pairs are released), 'nested' = rule actions that wait for a nested cascade of their own (fan < workers) with a stuck predicate that accepts workers blocked in a nested wait, 'late' = random scripts in which half of the child events are added by a helper goroutine after the action that created their monitor has returned (asynchronous producer; the wait still has to cover them), 'ecal' = the same scripts as ECAL sinks awaited with the built-in addEventAndWait, 'noise' = seeded random scripts with random yields/sleeps at the lock-free hook points, also under -race; oracles: stamps of action ends vs. return of AddEventAndWait, exactly-once invocation table, AllErrors() at return time and again at quiescence vs. expected failures, finish-handler count, IsFinished of every monitor handed out, stuck-state predicate for a wait that cannot return; non-trivial/distinct = distinct interleaving signatures of the hook trace and feasible gate cases")
 	shapes := gateShapes()
 	i := 0
 	for si, sh := range shapes {
@@ -642,6 +675,38 @@ func Run(c *core.Ctx) {
 		if c.Take("nested", k) {
 			runNested(c, k)
 		}
+	}
+	// asynchronous producers: some children get their monitor inside the action
+	// and their event only after the action returned
+	n = c.Pick(2500, 40000)
+	if c.Race {
+		n = c.Pick(600, 6000)
+	}
+	for k := 0; k < n; k++ {
+		if capped(c, "late", k) {
+			break
+		}
+		if !c.Take("late", k) {
+			continue
+		}
+		r := c.Rng("late", k)
+		s := genScript(r)
+		nl := 0
+		for _, rules := range s.kinds {
+			for ri := range rules {
+				for ci := range rules[ri].children {
+					if r.Chance(1, 2) {
+						rules[ri].children[ci].late = r.OneOf(1, 1, 20, 100, 400)
+						nl++
+					}
+				}
+			}
+		}
+		if nl == 0 {
+			continue
+		}
+		c.Event("late.children", int64(nl))
+		runScenario(c, "late", k, s, uint64(r.OneOf(0, 100, 300)), r.U64(), nil)
 	}
 	n = c.Pick(1500, 20000)
 	if c.Race {
